@@ -171,13 +171,15 @@ structure State where
   now : Nat
   /-- every transmission `(msgID, seqNo, body)` in order. -/
   log : List (Nat × Nat × Nat)
+  /-- history variable: every notification issued so far, `(msgID, isError, payload / code)`. -/
+  delivered : List (Nat × Bool × Nat)
   /-- ids of started calls / notifiers, newest first (for printing only). -/
   started : List Nat
   nstarted : List Nat
 
 def init : State :=
   { calls := fun _ => none, notifs := fun _ => none, rpc := fun _ => none, ack := fun _ => false,
-    closed := false, reqC := false, now := 0, log := [], started := [], nstarted := [] }
+    closed := false, reqC := false, now := 0, log := [], delivered := [], started := [], nstarted := [] }
 
 inductive LoopBr
   | ctx | closed | ack | tick
@@ -347,7 +349,7 @@ def stepNstart (s : State) (nid target : Nat) (isErr : Bool) (val : Nat) : Optio
   match s.notifs nid with
   | some _ => none
   | none =>
-    let s := { s with nstarted := nid :: s.nstarted }
+    let s := { s with nstarted := nid :: s.nstarted, delivered := s.delivered ++ [(target, isErr, val)] }
     match s.rpc target with
     | none => some (setNotif s nid { target, isErr, val, pc := .fin, fn := .nop, nret := .ok })
     | some h => some (setNotif s nid { target, isErr, val, pc := .invoke, fn := h, nret := .ok })
